@@ -325,7 +325,13 @@ pub async fn handle_srt_packet(
             //   routing has mostly moved off it.
             //
             // Only data packets have seq != None (control packets have MSB set).
+            //
+            // Enhanced mode only: classic mode is the reference srtla_send
+            // algorithm (pure window / in-flight selection), and its quality
+            // cache is never refreshed, so the override would pin every
+            // retransmit to the lowest-numbered connected link.
             if seq.is_some()
+                && !config_snap.mode.is_classic()
                 && (critical_window.is_critical_now(packet_time_ms)
                     || srtla_protocol::is_srt_data_retransmit(pkt))
                 && let Some(best_idx) = srtla_core::priority::select_best_quality_eligible_idx(
